@@ -219,7 +219,8 @@ PROPS = {
         "assumptions": ["observations are taken at quiescence; 'before Ready' is judged on what Events() delivered up to that point"],
     },
     "C05": {
-        "engines": [tree_engine("step,burst,burst", ("C05",), ("sub", "clone", "root", "mon"), 1500, 25000)],
+        "engines": [tree_engine("step,burst,burst", ("C05",), ("sub", "clone", "root", "mon"), 1500, 25000),
+                    tree_engine("overflow,stall", ("C05",), ("sub", "clone", "root", "mon"), 300, 5000)],
         "rule": "tree engine, modes step+burst: random trees of Subscribe/Clone (and the filtered constructors and monitors) up to depth 4, "
                 "server event streams with at most EventBufsiz/4 events in flight, subscriptions attached at arbitrary moments (also inside "
                 "bursts), schedule perturbation by virtual-time sleeps at the library's log calls. Every plain subscriber's drained sequence "
